@@ -128,6 +128,11 @@ func (s UniqueUnorderedCombination) setCombinationID(maxValue Value, combination
 
 	// TODO: check maxValue and combinationID sanity.
 
+	if len(s) == 0 {
+		// The only combination of zero values is the empty one (ID 0).
+		return
+	}
+
 	setSeries(0, 0)
 
 	iteratorValueIndex := 0
